@@ -62,7 +62,9 @@ class Obs(resource.ObservableResource):
 
     def __init__(self):
         super().__init__()
-        self._observations = InsertionOrderedSet()
+        if type(self._observations) is set:
+            # (only the iteration order of the library's own plain set is taken over; any other container is left alone)
+            self._observations = InsertionOrderedSet()
         self.version = 0
         self.renders = 0
         self.counts = []
@@ -142,13 +144,15 @@ class ObsScenario(NetScenario):
         self.params = {"scenario": name}
 
     def build(self, st):
-        w = st.world = World()
+        # S-OBS-midcollide: the server's own message-ID counter starts at the ID of O1's registration request, so that its first CON
+        # notification carries the very ID the observer used (the two directions have separate ID spaces)
+        w = st.world = World(mid0=0x1101) if self.name == "S-OBS-midcollide" else World()
         st.res = Obs()
         site = resource.Site()
         site.add_resource(["obs"], st.res)
         st.srv = w.add_context("srv", *SRV, site=site)
         st.o1 = w.add_peer(Observer("O1", *O1, token=b"\xa1"))
-        st.o2 = w.add_peer(Observer("O2", *O2, token=b"\xb2"))
+        st.o2 = w.add_peer(Observer("O2", *O2, token=b"\xa1" if self.name == "S-OBS-sametoken" else b"\xb2"))
         st.regs = []
         st.reported = set()
         st.acked = set()
@@ -159,13 +163,13 @@ class ObsScenario(NetScenario):
         n = self.name
         if n == "S-OBS-slowrender":
             st.res.render_delay = 0.1
-        if n in ("S-OBS-con", "S-OBS-two", "S-OBS-slowrender", "S-OBS-twotokens"):
+        if n in ("S-OBS-con", "S-OBS-two", "S-OBS-slowrender", "S-OBS-twotokens", "S-OBS-sametoken", "S-OBS-midcollide"):
             st.script.append(("register O1 CON", lambda st: self.register(st, st.o1, True)))
         if n == "S-OBS-twotokens":
             st.script.append(("register O1 CON token2", lambda st: self.register(st, st.o1, True, b"\xa2")))
-        if n in ("S-OBS-non", "S-OBS-two"):
+        if n in ("S-OBS-non", "S-OBS-two", "S-OBS-sametoken"):
             st.script.append(("register O2 NON", lambda st: self.register(st, st.o2, False)))
-        for i in range(3 if n not in ("S-OBS-two", "S-OBS-twotokens") else 2):
+        for i in range(3 if n not in ("S-OBS-two", "S-OBS-twotokens", "S-OBS-sametoken") else 2):
             st.script.append(("change", lambda st: self.change(st)))
 
     def nextmid(self, st, obs):
@@ -269,7 +273,8 @@ class ObsScenario(NetScenario):
             # (a "last" mark is sticky: plain triggers that follow and get coalesced with it do not undo it)
             live = self.live(st)
             st.final_from = ("last", len(w.sent))
-            for o in list(st.res._observations):
+            obsv = st.res._observations
+            for o in (list(obsv.values()) if isinstance(obsv, dict) else list(obsv)):
                 o.trigger(None, is_last=True)
             w.loop.settle()
             for r in live:
@@ -418,7 +423,7 @@ class ObsScenario(NetScenario):
 
 
 def run(tier, seed, jobs):
-    names = ["S-OBS-con", "S-OBS-non", "S-OBS-two", "S-OBS-slowrender", "S-OBS-twotokens"]
+    names = ["S-OBS-con", "S-OBS-non", "S-OBS-two", "S-OBS-slowrender", "S-OBS-twotokens", "S-OBS-sametoken", "S-OBS-midcollide"]
     K = 1 if tier == "quick" else 2
     res = explore_schedules([ObsScenario(n, K) for n in names], K, jobs)
     if tier == "quick":
